@@ -163,14 +163,16 @@ fn check_update(
     nexthop: Option<Nexthop>,
     attrs: &[Attribute],
     shape_extra: &str,
+    check_nh: bool,
 ) -> Vec<Violation> {
     let op = if is_reach { "reach" } else { "unreach" };
     let shape = format!("{}:{op}{shape_extra}", mkmsg::family_name(family));
     let msg = if is_reach { mkmsg::reach(family, entries.clone(), nexthop, attrs) } else { mkmsg::unreach(family, entries.clone()) };
-    let (_, dec) = match transfer(family, d, &msg, entries.len(), is_reach) {
+    let (frames, dec) = match transfer(family, d, &msg, entries.len(), is_reach) {
         Ok(x) => x,
         Err((clause, detail)) => return vec![viol(&clause, shape, detail, case)],
     };
+    let bytes = frames.first().map(|f| hex(f)).unwrap_or_default();
     let mut vs = Vec::new();
     if dec.err_attrs > 0 {
         vs.push(viol("attr-rejected", shape.clone(), format!("receiver reported {} attribute error(s) on a valid UPDATE", dec.err_attrs), case));
@@ -187,20 +189,20 @@ fn check_update(
     }
     if is_reach {
         for nh in &dec.nexthops {
-            if *nh != nexthop {
+            if check_nh && *nh != nexthop {
                 let nhs = match (nexthop, nh) {
                     (Some(a), Some(b)) => format!(":{}->{}", nh_class(&a), nh_class(b)),
                     (Some(a), None) => format!(":{}->none", nh_class(&a)),
                     (None, Some(b)) => format!(":none->{}", nh_class(b)),
                     _ => String::new(),
                 };
-                vs.push(viol("nexthop-differs", format!("{}:{op}{nhs}", mkmsg::family_name(family)), format!("sent next hop {nexthop:?}, received {nh:?}"), case));
+                vs.push(viol("nexthop-differs", format!("{}:{op}{nhs}", mkmsg::family_name(family)), format!("sent next hop {nexthop:?}, received {nh:?}; bytes={bytes}"), case));
                 break;
             }
         }
         let want_attrs = expected_attrs(attrs);
         for a in &dec.attrs {
-            if *a != want_attrs {
+            if mkmsg::attr_keys(a) != mkmsg::attr_keys(&want_attrs) {
                 vs.push(viol("attrs-differ", shape.clone(), format!("sent {:?} (expected at receiver {:?}), received {:?}", attrs, want_attrs, a), case));
                 break;
             }
@@ -290,12 +292,12 @@ fn eval_case(case: &str) -> Result<Vec<Violation>, String> {
             let _ = name;
             let extra = if mkmsg::nlri_has_label_stack(&n) { ":label-stack" } else { "" };
             let extra = if p[0] == "codeonly" { ":code-only-form".to_string() } else { extra.to_string() };
-            Ok(check_update(case, f, &dflt, vec![PathNlri::new(n)], ru(3)?, mkmsg::default_nexthop(f), &mkmsg::base_attrs(), &extra))
+            Ok(check_update(case, f, &dflt, vec![PathNlri::new(n)], ru(3)?, mkmsg::default_nexthop(f), &mkmsg::base_attrs(), &extra, false))
         }
         "all" => {
             let f = fam(num(1)?);
             let ns: Vec<_> = mkmsg::nlris(f, NlriSize::All).into_iter().filter(|n| !mkmsg::nlri_has_label_stack(n)).collect();
-            Ok(check_update(case, f, &dflt, mkmsg::path_entries(&ns, false), ru(2)?, mkmsg::default_nexthop(f), &mkmsg::base_attrs(), ":all-values"))
+            Ok(check_update(case, f, &dflt, mkmsg::path_entries(&ns, false), ru(2)?, mkmsg::default_nexthop(f), &mkmsg::base_attrs(), ":all-values", false))
         }
         "nh" => {
             let f = fam(num(1)?);
@@ -304,14 +306,14 @@ fn eval_case(case: &str) -> Result<Vec<Violation>, String> {
             d.l_ext_nh = c.needs_ext_nh;
             d.r_ext_nh = c.needs_ext_nh;
             let n = mkmsg::nlris(f, NlriSize::Min).remove(0);
-            Ok(check_update(case, f, &d, vec![PathNlri::new(n)], true, c.nexthop, &mkmsg::base_attrs(), ""))
+            Ok(check_update(case, f, &d, vec![PathNlri::new(n)], true, c.nexthop, &mkmsg::base_attrs(), "", true))
         }
         "attr" => {
             let f = fam(num(1)?);
             let (name, set) = mkmsg::attribute_sets().get(num(2)?).ok_or("index")?.clone();
             let kind = name.split('#').next().unwrap_or("").to_string();
             let n = mkmsg::nlris(f, NlriSize::Max).remove(0);
-            Ok(check_update(case, f, &dflt, vec![PathNlri::new(n)], true, mkmsg::default_nexthop(f), &set, &format!(":attr-{kind}")))
+            Ok(check_update(case, f, &dflt, vec![PathNlri::new(n)], true, mkmsg::default_nexthop(f), &set, &format!(":attr-{kind}"), false))
         }
         "pair" => {
             let f = fam(num(1)?);
@@ -321,7 +323,7 @@ fn eval_case(case: &str) -> Result<Vec<Violation>, String> {
             let e = mkmsg::path_entries(&[n], d.tx_addpath());
             let nh = mkmsg::default_nexthop(f);
             // base attributes only: no wide AS, so 2-byte sessions need no reconciliation
-            Ok(check_update(case, f, &d, e, ru(4)?, nh, &mkmsg::base_attrs(), &format!(":{}", pair_class(&d))))
+            Ok(check_update(case, f, &d, e, ru(4)?, nh, &mkmsg::base_attrs(), &format!(":{}", pair_class(&d)), true))
         }
         "open" => Ok(check_simple(case, "open", &mkmsg::opens().get(num(1)?).ok_or("index")?.1)),
         "notif" => Ok(check_simple(case, "notification", &mkmsg::notifications().get(num(1)?).ok_or("index")?.1)),
